@@ -12,6 +12,7 @@ ASSUMPTIONS = ["Gaussian inverse relation asserted for T <= sps only (for wider 
                "FWHM measured on the amplitude waveform above bias by linear interpolation",
                "levels compared at rtol 1e-12 (one rounding of Vout*b+bias)"]
 MIN_CHECKS = {"dac.post": 500, "sampler.post": 500, "inverse": 500, "gauss.metrics": 40, "errors": 50}
+SHARDS = {"quick": 4}
 
 D = None
 T = None
